@@ -3,12 +3,14 @@
    comparison domain (accepted by std's trait bounds and by konst), checks loop machine = Std (or the known
    F8 shape) on every input, and emits one program descriptor per (chain, consumer). *)
 EXTENDS IterDsl, Json, IOUtils, SequencesExt
-CONSTANTS Depth
+CONSTANTS Depth,
+          Wide      \* TRUE: also the boundary arguments take(0) / take(5) / skip(0) / skip(5) and nth(0) / nth(4)
 
-Adapters == {Ad("enumerate", 0), Ad("filter", 0), Ad("filter_map", 0), Ad("flat_map", 0), Ad("flatten", 0), Ad("map", 1), Ad("rev", 0),
+WideAdapters == IF Wide THEN {Ad("take", 0), Ad("take", 5), Ad("skip", 0), Ad("skip", 5)} ELSE {}
+Adapters == WideAdapters \cup {Ad("enumerate", 0), Ad("filter", 0), Ad("filter_map", 0), Ad("flat_map", 0), Ad("flatten", 0), Ad("map", 1), Ad("rev", 0),
              Ad("skip", 1), Ad("skip_while", 0), Ad("take", 2), Ad("take_while", 0), Ad("zip", 0)}
 Consumers == {"for_each", "collect", "all", "any", "count", "find", "find_map", "rfind", "fold", "rfold", "next",
-              "nth", "position", "rposition"}
+              "nth", "position", "rposition"} \cup (IF Wide THEN {"nth0", "nth4"} ELSE {})
 Inputs == << <<>>, <<1>>, <<1, 2, 3, 4>>, <<3, 1, 2>>, <<2, 4, 6, 8, 5>>, <<2, 2, 2>> >>
 NthArg == 1
 
